@@ -301,7 +301,9 @@ func genRedirTarget(r *Rng) string {
 	h := hosts[r.Intn(len(hosts))]
 	paths := []string{"", "/", "/x", "/a/b?c=d", "/%2e%2e/", "/#f"}
 	p := paths[r.Intn(len(paths))]
-	switch r.Intn(24) {
+	switch r.Intn(26) {
+	case 24, 25: // values that are still escaped when the library sees them (escaped twice on the wire)
+		return []string{"%2F%2F" + h + p, "%2f%2f" + h + p, "%2F%5C" + h + p, "%2F%09%2F" + h, "%2F/" + h + p, "/%2F%2F" + h, "%5C%5C" + h + p, "https%3A%2F%2F" + h + p}[r.Intn(8)]
 	case 22, 23: // a local target that itself carries a return target: the login page with a hostile redir inside
 		inner := []string{"//" + h + p, "https://" + h + p, "/\\" + h, "%2F%2F" + h + "%2Fx", "https:%2F%2F" + h}[r.Intn(5)]
 		return []string{"/auth/login", "/login", "/x/y/login", "/app/login"}[r.Intn(4)] + "?redir=" + inner
